@@ -174,7 +174,12 @@ def emit_param_str(
                         "{nl}{tab}{doc}".format(
                             doc=set_default_doc(
                                 (name, _param), emit_default_doc=emit_default_doc
-                            )[1]["doc"],
+                            )[1]["doc"].replace(
+                                "\n",
+                                "\n{tab}".format(
+                                    tab=" " * (3 if name == "return_type" else 4)
+                                ),
+                            ),
                             **(
                                 {"nl": "\n", "tab": " " * 3}
                                 if name == "return_type"
